@@ -64,6 +64,7 @@ func vsessRun(t *testing.T, sc vsessScenario, e *vx.Exec) (err error) {
 			}
 			var cancels []context.CancelFunc
 			waitingCancellable := 0
+			cancellableThread := ""
 			for ti, keys := range sc.Threads {
 				ti, keys := ti, keys
 				sch.Go(fmt.Sprintf("T%d", ti), func() {
@@ -74,7 +75,11 @@ func vsessRun(t *testing.T, sc vsessScenario, e *vx.Exec) (err error) {
 						if cancellable {
 							var cancel context.CancelFunc
 							ctx, cancel = context.WithCancel(ctx)
-							sch.Update(func() { cancels = append(cancels, cancel); waitingCancellable++ })
+							sch.Update(func() {
+								cancels = append(cancels, cancel)
+								waitingCancellable++
+								cancellableThread = fmt.Sprintf("T%d", ti)
+							})
 						}
 						end, serr := s.StartSession(ctx, k)
 						if cancellable {
@@ -105,8 +110,13 @@ func vsessRun(t *testing.T, sc vsessScenario, e *vx.Exec) (err error) {
 				}
 				cancels = nil
 			}})
-			// also allow cancelling early (while the holder is still in its session)
-			sch.AddAction(vsched.ExtraAction{Name: "cancel-early", Enabled: func() bool { return waitingCancellable > 0 && len(cancels) > 0 }, Do: func() {
+			// also allow cancelling early (while the holder is still in its session) - but only once
+			// the waiter is really blocked in StartSession's select: cancelling before it gets there
+			// would leave Go's select to choose at random between the released session and the
+			// cancelled context, which no schedule can own
+			sch.AddAction(vsched.ExtraAction{Name: "cancel-early", Enabled: func() bool {
+				return waitingCancellable > 0 && len(cancels) > 0 && sch.BlockedUnhooked(cancellableThread)
+			}, Do: func() {
 				for _, c := range cancels {
 					c()
 				}
